@@ -305,6 +305,8 @@ def build(spec, shape=None, units=None):
     handed = []
 
     def give(x):
+        # (in one of several memory layouts, chosen by the data)
+        x = gen.flavoured(x)
         handed.append(x)
         return x
     obj = _build_kind(kind, variant, arr, lambda: give(arr.copy()),
@@ -313,7 +315,8 @@ def build(spec, shape=None, units=None):
     # the caller re-uses its buffers afterwards: an object must not keep reading its data
     # through an alias of an array it was constructed from
     for h in handed:
-        h[...] = 777.0
+        if h.flags.writeable:
+            h[...] = 777.0
     return obj
 
 
@@ -378,9 +381,10 @@ def build_T(hyp, cols, col_flag):
     over as column matrices (col_flag) or as the transposed row matrices"""
     cls = H.Isometry if hyp else P.Transformation
     cols = np.asarray(cols)
-    buf = cols.copy() if col_flag else np.swapaxes(cols, -1, -2).copy()
+    buf = gen.flavoured(cols.copy() if col_flag else np.swapaxes(cols, -1, -2).copy())
     T = cls(buf, column_vectors=bool(col_flag))
-    buf[...] = 777          # the caller re-uses its buffer (see build)
+    if buf.flags.writeable:
+        buf[...] = 777          # the caller re-uses its buffer (see build)
     return T
 
 
